@@ -223,13 +223,17 @@ func deepObserve[R any](target, outcome R, fbVal R, isFb func(R) bool) string {
 	cb := circuitbreaker.Builder[R]().WithFailureThreshold(10).HandleResult(target).Build()
 	failsafe.Get(fn, failsafe.Policy[R](cb))
 	r, _ := failsafe.Get(fn, fallback.BuilderWithResult[R](fbVal).HandleResult(target).Build())
+	// a hedge policy with the target as its cancel condition accepts a matching first result at once (no hedge is started)
+	hedged := false
+	failsafe.Get(fn, hedgepolicy.BuilderWithDelay[R](20*time.Millisecond).WithMaxHedges(1).CancelOnResult(target).
+		OnHedge(func(failsafe.ExecutionEvent[R]) { hedged = true }).Build())
 	b := func(x bool) int {
 		if x {
 			return 1
 		}
 		return 0
 	}
-	return fmt.Sprintf("rp=%d ab=%d cb=%d fb=%d", b(inv == 2), b(aborted), cb.Metrics().Failures(), b(isFb(r)))
+	return fmt.Sprintf("rp=%d ab=%d cb=%d fb=%d hp=%d", b(inv == 2), b(aborted), cb.Metrics().Failures(), b(isFb(r)), b(!hedged))
 }
 
 func deepRow(kind string, eq bool) string {
